@@ -81,6 +81,10 @@ class T:
     def __repr__(self):
         if self.kind == 'ref':
             return self.cls
+        if self.kind == 'rdict':
+            return 'dict[DNSRecord,%r]' % (self.args[0],)
+        if self.kind == 'rset':
+            return 'set[DNSRecord]'
         if self.args:
             return '%s[%s]' % (self.kind, ','.join(map(repr, self.args)))
         return self.kind
@@ -101,7 +105,7 @@ class T:
         if self.args:
             return '%s_%s' % (self.kind.capitalize(), '_'.join(a.sortname() for a in self.args))
         return {'int': 'Int', 'real': 'Real', 'bool': 'Bool', 'str': 'Str', 'bytes': 'Bytes',
-                'optint': 'OptInt', 'ident': 'Ident'}[self.kind]
+                'optint': 'OptInt', 'ident': 'Ident', 'rset': 'Rset'}[self.kind]
 
     def sort(self):
         if self._sort is not None:
